@@ -127,8 +127,15 @@ def run(ctx: Ctx) -> None:
     fv.install_controlled_fs()
     fv.quiet_redun()
 
+    phases: dict = {}
+
+    def mark(name: str, _t=[ctx.elapsed()]) -> None:
+        phases[name] = round(ctx.elapsed() - _t[0], 1)
+        _t[0] = ctx.elapsed()
+
     # ---- 1. model checking ------------------------------------------------------------------
     model_check(ctx)
+    mark("model_check")
 
     # ---- 2. which named deviations does this tree have? (witnesses run on the real code) ------
     dev = fv.probe_deviations(ctx.scratch)
@@ -154,7 +161,9 @@ def run(ctx: Ctx) -> None:
     ctx.add_tlc(g)
     behs = sorted(g.recs("BEH"), key=lambda b: fv.json.dumps(b, sort_keys=True))
     ctx.require(len(behs) > 1000, f"too few behaviours from TLC: {len(behs)}")
+    mark("tree_tlc")
     replay_all(ctx, rep, behs, U_TWO_DIRS, "tree3", stats)
+    mark("tree_replay")
     ctx.sample({"source": "tlc-exhaustive", "ops": [s["op"] for s in behs[len(behs) // 2]["steps"]]})
 
     # ---- 4. spec -> code: long simulated behaviours ---------------------------------------------
@@ -168,7 +177,9 @@ def run(ctx: Ctx) -> None:
     ctx.add_tlc(sres)
     sbehs = sres.recs("BEH")
     ctx.require(len(sbehs) >= nsim // 2, f"too few simulated behaviours: {len(sbehs)}")
+    mark("sim_tlc")
     replay_all(ctx, rep, sbehs, U_FULL, f"sim{depth}", stats)
+    mark("sim_replay")
     ctx.sample({"source": "tlc-simulate", "ops": [s["op"] for s in sbehs[0]["steps"]]})
     ctx.note("replay_stats", stats)
 
@@ -181,6 +192,7 @@ def run(ctx: Ctx) -> None:
         traces.append(fv.record_ops_trace(ctx.rng, root, ctx.rng.randint(6, 14), tu["dirs"], tu["names"],
                                           tu["bytes_"], tu["mtimes"], fv.ALL_CLS, 5))
         fv.cleanup_root(root)
+    mark("record_traces")
     # negative controls: flip one is_valid answer; give one recorded hash the token of another
     bad1 = copy.deepcopy(next(t for t in traces if any(s["obs"]["objs"] for s in t["steps"][3:])))
     k1 = next(i for i, s in enumerate(bad1["steps"]) if i >= 3 and s["obs"]["objs"])
@@ -194,6 +206,8 @@ def run(ctx: Ctx) -> None:
     allt = traces + [bad1, bad2]
     verdicts, tres = fv.validate_traces(ctx, allt, "ops", **tu, max_objs=5, **flags, invariants=UNLESS,
                                         properties=["TContentBytesOnly"])
+    mark("trace_tlc")
+    ctx.note("phase_seconds", phases)
     ctx.require(len(verdicts) == len(allt), f"verdicts {len(verdicts)} != traces {len(allt)}")
     ctx.negative_control(verdicts[len(traces) + 1] == (0, k1 + 1),
                          "a flipped is_valid answer in a recorded execution must be rejected at that step")
